@@ -201,7 +201,7 @@ func (e *Env) conformingAttrs(r *rand.Rand, el string, used map[string]bool) [][
 			continue
 		}
 		// the data-attribute passthrough takes precedence over rules; avoid names it would judge
-		if strings.HasPrefix(k, "data-") {
+		if sp.DataAttrs && wellFormedData(k) {
 			continue
 		}
 		rules := sp.RulesStrict(el, k)
